@@ -541,6 +541,9 @@ class Parser:
         if ss:
             values.append(self._concat_strings_in_constant(ss))
 
+        if seen_joined and any(isinstance(v, ast.Constant) and isinstance(v.value, bytes) for v in values):
+            self.raise_syntax_error_known_range("cannot mix bytes and nonbytes literals", parts[0], parts[-1])
+
         consolidated: list[Any] = []  # ast.Constant | ast.FormattedValue
         for p in values:
             if consolidated and isinstance(consolidated[-1], ast.Constant) and isinstance(p, ast.Constant):
